@@ -92,6 +92,8 @@ func c22Subtree(i int, key string) []*gpb.PathElem {
 		return []*gpb.PathElem{c22E("system"), c22E("ntp")}
 	case 1:
 		return []*gpb.PathElem{c22E("system"), c22E("ntp-keys")}
+	case 3:
+		return []*gpb.PathElem{} // the root
 	}
 	return []*gpb.PathElem{c22E("interfaces"), c22E("interface", "name", key)}
 }
@@ -280,6 +282,8 @@ var c22Docs = []struct {
 	{"a=", `{"interface":[{"name":"a=","config":{"name":"a=","mtu":1500,"description":"ab"}}]}`},
 	{"[a", `{"interface":[{"name":"[a","config":{"name":"[a","mtu":1500,"description":"ab"}}]}`},
 	{"a b", `{"openconfig-interfaces:interface":[{"name":"a b","config":{"name":"a b","mtu":1500,"description":"ab"}}]}`},
+	{"a//b", `{"interface":[{"name":"a//b","config":{"name":"a//b","mtu":1500,"description":"ab"}}]}`},
+	{"/../", `{"interface":[{"name":"/../","config":{"name":"/../","mtu":1500,"description":"ab"}}]}`},
 }
 
 // H_C22_json: one JSON update against the equivalent leaf updates (symbolic key and
